@@ -1,18 +1,19 @@
 #!/bin/bash
-# dev helper: prepare a scratch worktree and a prompt for a seeding agent.  usage: dev/mkseed.sh <ID> [N]
-ID=$1; N=${2:-3}; W=/tmp/wt/$ID
+# dev helper: prepare a scratch worktree and a prompt for a seeding agent.  usage: [SEED_PROMPT=file] [SUFFIX=b] dev/mkseed.sh <ID> [N]
+ID=$1; N=${2:-3}; W=/tmp/wt/$ID$SUFFIX
 mkdir -p /tmp/wt
+[ -f /tmp/wt/SEED_PROMPT.txt ] || cp /verif/dev/SEED_PROMPT.txt /tmp/wt/SEED_PROMPT.txt
 git -C /repo worktree remove --force $W 2>/dev/null; rm -rf $W
 git -C /repo worktree add -q --detach $W HEAD || exit 3
 cp -r /repo/target $W/target
-python3 - "$ID" "$N" "$W" <<'PY'
+python3 - "$ID" "$N" "$W" "${SEED_PROMPT:-/tmp/wt/SEED_PROMPT.txt}" <<'PY'
 import json, sys
-pid, n, wt = sys.argv[1:4]
+pid, n, wt, tmpl = sys.argv[1:5]
 for l in open('/verif/properties.jsonl'):
     d = json.loads(l)
     if d['id'] == pid:
         prop = '%s: %s\n\n%s\n\nQuantifier: %s\n' % (pid, d.get('title', ''), d.get('statement', ''), (lambda q: q.get('text') if isinstance(q, dict) else q)(d.get('quantifier', '')))
-t = open('/tmp/wt/SEED_PROMPT.txt').read().replace('{WT}', wt).replace('{PROP}', prop).replace('{N}', n).replace('{ID}', pid)
-open('/tmp/wt/%s.prompt.txt' % pid, 'w').write(t)
+t = open(tmpl).read().replace('{WT}', wt).replace('{PROP}', prop).replace('{N}', n).replace('{ID}', pid)
+open(wt + '.prompt.txt', 'w').write(t)
 PY
-echo /tmp/wt/$ID.prompt.txt
+echo $W.prompt.txt
